@@ -23,6 +23,8 @@ def run(res, pool, tier, seed):
                 dict(module="MC_Rel.tla", tag="dirs2", invariants=INVS, timeout=3600,
                      constants=dict(B=2, KA=set(KINDS), KB=set(KINDS), SEED=seed % 1000, NSHARD=12))]
     engine.run_jobs(res, jobs, pool)
+    import traces
+    traces.run_for(res, ["unit_tests", "driver"], {"C11"}, seed=seed + 11, nsessions=250 if tier == "quick" else 2500)
 
 
 def expected_angle(ang):
